@@ -33,7 +33,7 @@ import pyben
 
 from torrentfile.hasher import HasherV2
 from torrentfile.mixins import CbMixin, ProgMixin
-from torrentfile.utils import copypath
+from torrentfile.utils import copypath, hash_bytes
 
 logger = logging.getLogger(__name__)
 SHA1 = 20
@@ -275,7 +275,7 @@ class Metadata(CbMixin, ProgMixin):
         self.piece_length = info["piece length"]
         self.name = info["name"]
         self.meta_version = info.get("meta version", 1)
-        self.pieces = info.get("pieces", bytes())
+        self.pieces = hash_bytes(info.get("pieces", bytes()))
         if self.meta_version == 2:
             tree = info["file tree"]
             if ("files" not in info and list(tree) == [self.name]
@@ -378,7 +378,7 @@ class Metadata(CbMixin, ProgMixin):
                 path = Path(*partials)
                 full = path / key
                 length = val[""]["length"]
-                root = val[""].get("pieces root")
+                root = hash_bytes(val[""].get("pieces root"))
                 self.files.append({
                     "path": path,
                     "full": full,
